@@ -82,7 +82,13 @@ var arrayTemplates = map[string]string{
 	"wide2":      "V{{ x }}-cccccccccccccccccccccccccccccccc-{{ x }}{% if x %}-dddddddd{% endif %}",
 	"fargs":      "{{ xs|join(sep) }}|{{ missing|default(fb) }}|{% for v in xs|slice(0, n) %}{{ v }}{% endfor %}|{{ (x ~ sep)|replace('-', by) }}",
 	"attr2":      "{{ o.P }}{{ o.Q }}{{ o.M }}",
+	"mat1":       "{% if w matches '/^al/' %}Y{% else %}N{% endif %}{{ w matches '/ce$/' ? 'y' : 'n' }}{{ x }}",
+	"mat2":       "{% if w matches '/^bo/' %}Y{% else %}N{% endif %}{{ w matches '/xx$/i' ? 'y' : 'n' }}{{ x }}",
+	"mrg":        "{{ base|merge([tag])|join(',') }}|{{ base|merge([tag, x])|length }}|{{ base|length }}",
 }
+
+// sharedBase: one caller-owned list (cap > len) that both threads' contexts hold
+var sharedBase = append(make([]interface{}, 0, 8), "x", "y")
 
 type TS struct{ A, B string }
 
@@ -353,6 +359,14 @@ func scenarios() []scenario {
 			threads: [][]call{
 				{rcx("fargs", 1, map[string]interface{}{"sep": "-", "fb": "one", "n": 1, "by": "+"})},
 				{rcx("fargs", 2, map[string]interface{}{"sep": "/", "fb": "two", "n": 2, "by": "*"})}}, quickK: 2, thoroughK: 3},
+		{name: "S4h two cached templates whose operators and filters take different constant arguments (patterns)", setup: warmAll("mat1", "mat2"), modes: []string{"cache-on"},
+			threads: [][]call{
+				{rcx("mat1", 1, map[string]interface{}{"w": "alice"}), rcx("mat1", 1, map[string]interface{}{"w": "bob"})},
+				{rcx("mat2", 2, map[string]interface{}{"w": "alice"}), rcx("mat2", 2, map[string]interface{}{"w": "bob"})}}, quickK: 1, thoroughK: 2},
+		{name: "S4i one cached template, two contexts that share one list with spare capacity", setup: warmAll("mrg"), modes: []string{"cache-on"},
+			threads: [][]call{
+				{rcx("mrg", 1, map[string]interface{}{"base": sharedBase, "tag": "A"})},
+				{rcx("mrg", 2, map[string]interface{}{"base": sharedBase, "tag": "B"})}}, quickK: 2, thoroughK: 3},
 		{name: "S7b first struct attribute lookups of a type from two threads (cold attribute cache)", setup: func(mode string) *world {
 			w := newEngine(mode, []string{"attr2"}, false)
 			w.fresh = freshStruct()
